@@ -58,6 +58,9 @@ func zzC09_PruneRun() {
 	if zzI4Holds(g) {
 		zzAssert(zzI4Holds(g2), "C14/prune: after prune every surviving task's epic reference still names a live epic")
 	}
+	for k := range g.Tasks {
+		zzAssert(zzInList(plan.PrunedIDs, k) == (g2.Tasks[k] == nil), "C16/prune: the reported pruned ids are exactly the items a following read no longer shows")
+	}
 	for k, t := range g.Tasks {
 		post := g2.Tasks[k]
 		_, tomb := g2.Tombstones[k]
